@@ -27,6 +27,7 @@ type VNode struct {
 	Description string            `point:"description"`
 	Port        int               `point:"port"`
 	Gain        float64           `point:"gain"`
+	Chan        uint8             `point:"chan"` // a value outside 0..255 makes the configuration undecodable
 	Tags        []string          `point:"tag"`
 	Opts        map[string]string `point:"opt"`
 	Role        string            `edgepoint:"role"`
